@@ -581,6 +581,20 @@ class Engine:
             import enum as _enum
             if isinstance(sv.py, _enum.IntEnum):
                 return Val.VInt(int(sv.py))
+        if k == "dict" and all(isinstance(key, str) for key in sv.py):
+            # a dictionary display stored into the heap (e.g. self._properties = {}): a fresh heap dictionary
+            r = self.p.alloc("dict")
+            dom = z3.K(z3.StringSort(), z3.BoolVal(False))
+            mp = self.p.hread("dict.map", r.ref)
+            order = z3.Empty(M.StrSeq)
+            for key, val in sv.py.items():
+                dom = z3.Store(dom, z3.StringVal(key), True)
+                mp = z3.Store(mp, z3.StringVal(key), self.box(val))
+                order = z3.Concat(order, z3.Unit(z3.StringVal(key)))
+            self.p.hwrite("dict.dom", r.ref, dom)
+            self.p.hwrite("dict.map", r.ref, mp)
+            self.p.hwrite("dict.order", r.ref, order)
+            return Val.VRef(r.cls, r.ref)
         if k == "func":
             # a Python-level callable created by the analysed code: an opaque callable object
             if sv.ref is None:
@@ -1093,6 +1107,12 @@ class Engine:
             items = p.hread("list.items", a.ref)
             n = b.t
             r = p.alloc("list")
+            cn_, cl_ = conc_int(n), conc_int(z3.Length(items))
+            if cn_ is not None and cl_ is not None and cn_ * cl_ <= 16:
+                # concrete small repetition (e.g. [UNDEFINED] * 0): the sequence itself
+                parts = [items] * max(cn_, 0)
+                p.hwrite("list.items", r.ref, simp(z3.Concat(*parts)) if len(parts) > 1 else (parts[0] if parts else z3.Empty(ValSeq)))
+                return r
             out = p.fresh(ValSeq, "rep")
             p.assume(z3.Length(out) == z3.If(n > 0, n, 0) * z3.Length(items))
             if conc_int(z3.Length(items)) == 1:
@@ -1592,6 +1612,11 @@ class Engine:
                 v = simp(z3.Select(p.hread("dict.map", base.ref), idx.t))
                 self.elem_fact(base, v)
                 return s_val(v)
+            m = self.find_method(cn, "__getitem__") if cn in self.ct.real else None
+            if m is not None:
+                from .interp import FuncVal
+                nodef, mod, owner = m
+                return self.call_func(FuncVal(nodef, [], mod, f"{mod.name}:{owner}.__getitem__", self_obj=base), [idx], {})
             raise PyExc("TypeError", None, f"'{cn}' object is not subscriptable")
         raise PyExc("TypeError", None, f"{base.kind} is not subscriptable")
 
